@@ -24,9 +24,9 @@ REL = "device/src/pixel_format.rs"
 IDENT = r"[A-Za-z_][A-Za-z0-9_]*"
 LIT = r"(0[xX][0-9A-Fa-f_]+|[0-9][0-9_]*)(?:_?u32)?"
 RE_VARIANT = re.compile(r"^(%s),$" % IDENT)
-RE_DEC_ARM = re.compile(r"^%s\s*=>\s*Ok\(\s*(?:PixelFormat::)?(%s)\s*\),$" % (LIT, IDENT))
+RE_DEC_ARM = re.compile(r"^%s\s*=>\s*Ok\(\s*(?:PixelFormat::|Self::)?(%s)\s*\),$" % (LIT, IDENT))
 RE_DEC_DEFAULT = re.compile(r"^(%s|_)\s*=>\s*Err\(.*\),$" % IDENT)
-RE_ENC_ARM = re.compile(r"^(?:PixelFormat::)?(%s)\s*=>\s*%s,$" % (IDENT, LIT))
+RE_ENC_ARM = re.compile(r"^(?:PixelFormat::|Self::)?(%s)\s*=>\s*%s,$" % (IDENT, LIT))
 
 LEAN_KEYWORDS = {
     "def", "theorem", "end", "namespace", "structure", "inductive", "where", "match", "with", "if", "then",
